@@ -1121,6 +1121,23 @@ func genC12Wire(g *Gen) error {
 		fps = append(fps, [2]string{h[1], fp})
 	}
 	g.PairList("wireHelperFingerprints", fps)
+	// the re-parse entry points and the printers of what they read, transcribed by hand in Wire.lean / Stmt.lean
+	var fps2 [][2]string
+	for _, h := range [][2]string{
+		{c12dir + "scanner.go", "Scanner.reset"}, {c12dir + "scanner.go", "bufScanner.reset"}, {c12dir + "parser.go", "Parser.reset"},
+		{c12dir + "parser.go", "NewParser"}, {c12dir + "parser.go", "ParseExpr"}, {c12dir + "parser.go", "ParseSource"},
+		{c12dir + "parser.go", "ParseSortFields"}, {c12dir + "parser.go", "Parser.parseSortFields"}, {c12dir + "parser.go", "Parser.parseSortField"},
+		{c12dir + "ast.go", "SortField.RenderBytes"}, {c12dir + "ast.go", "SortFields.RenderBytes"},
+		{c12dir + "parser.go", "Parser.parseFields"}, {c12dir + "parser.go", "Parser.parseField"}, {c12dir + "parser.go", "Parser.parseAlias"},
+		{c12dir + "ast.go", "Field.RenderBytes"}, {c12dir + "ast.go", "Fields.RenderBytes"}, {"engine/hybridqp/codec.go", "ParseFields"},
+	} {
+		fp, err := g.Fingerprint(h[0], h[1])
+		if err != nil {
+			return err
+		}
+		fps2 = append(fps2, [2]string{h[1], fp})
+	}
+	g.PairList("reparseFingerprints", fps2)
 	g.P("")
 	return nil
 }
